@@ -31,33 +31,33 @@ example : netstring [7] <+: netstring [7] := List.prefix_refl _
 
 /-! ## The tag constants of the live source equal the documented strings -/
 
-/-! one named pin per tag constant (`pin` compares the constant with the string literal); an edited tag in
+/-! one named pin per tag constant (`c17_pin` compares the constant with the string literal); an edited tag in
     util/hashutil.py changes `Generated/Hashutil.lean` and breaks exactly the pin of that tag (and the
     `spec_form` theorems that mention it) -/
-theorem tag_BACKUPDB_DIRHASH : Hashutil.BACKUPDB_DIRHASH_TAG = ascii "allmydata_backupdb_dirhash_v1" := by pin
-theorem tag_BLOCK : Hashutil.BLOCK_TAG = ascii "allmydata_encoded_subshare_v1" := by pin
-theorem tag_BUCKET_CANCEL : Hashutil.BUCKET_CANCEL_TAG = ascii "allmydata_bucket_cancel_secret_v1" := by pin
-theorem tag_BUCKET_RENEWAL : Hashutil.BUCKET_RENEWAL_TAG = ascii "allmydata_bucket_renewal_secret_v1" := by pin
-theorem tag_CIPHERTEXT_SEGMENT : Hashutil.CIPHERTEXT_SEGMENT_TAG = ascii "allmydata_crypttext_segment_v1" := by pin
-theorem tag_CIPHERTEXT : Hashutil.CIPHERTEXT_TAG = ascii "allmydata_crypttext_v1" := by pin
-theorem tag_CLIENT_CANCEL : Hashutil.CLIENT_CANCEL_TAG = ascii "allmydata_client_cancel_secret_v1" := by pin
-theorem tag_CLIENT_RENEWAL : Hashutil.CLIENT_RENEWAL_TAG = ascii "allmydata_client_renewal_secret_v1" := by pin
-theorem tag_CONVERGENT_ENCRYPTION : Hashutil.CONVERGENT_ENCRYPTION_TAG = ascii "allmydata_immutable_content_to_key_with_added_secret_v1+" := by pin
-theorem tag_DIRNODE_CHILD_SALT : Hashutil.DIRNODE_CHILD_SALT_TAG = ascii "allmydata_dirnode_child_rwcap_to_salt_v1" := by pin
-theorem tag_DIRNODE_CHILD_WRITECAP : Hashutil.DIRNODE_CHILD_WRITECAP_TAG = ascii "allmydata_mutable_writekey_and_salt_to_dirnode_child_capkey_v1" := by pin
-theorem tag_FILE_CANCEL : Hashutil.FILE_CANCEL_TAG = ascii "allmydata_file_cancel_secret_v1" := by pin
-theorem tag_FILE_RENEWAL : Hashutil.FILE_RENEWAL_TAG = ascii "allmydata_file_renewal_secret_v1" := by pin
-theorem tag_MUTABLE_DATAKEY : Hashutil.MUTABLE_DATAKEY_TAG = ascii "allmydata_mutable_readkey_to_datakey_v1" := by pin
-theorem tag_MUTABLE_PUBKEY : Hashutil.MUTABLE_PUBKEY_TAG = ascii "allmydata_mutable_pubkey_to_fingerprint_v1" := by pin
-theorem tag_MUTABLE_READKEY : Hashutil.MUTABLE_READKEY_TAG = ascii "allmydata_mutable_writekey_to_readkey_v1" := by pin
-theorem tag_MUTABLE_STORAGEINDEX : Hashutil.MUTABLE_STORAGEINDEX_TAG = ascii "allmydata_mutable_readkey_to_storage_index_v1" := by pin
-theorem tag_MUTABLE_WRITEKEY : Hashutil.MUTABLE_WRITEKEY_TAG = ascii "allmydata_mutable_privkey_to_writekey_v1" := by pin
-theorem tag_MUTABLE_WRITE_ENABLER_MASTER : Hashutil.MUTABLE_WRITE_ENABLER_MASTER_TAG = ascii "allmydata_mutable_writekey_to_write_enabler_master_v1" := by pin
-theorem tag_MUTABLE_WRITE_ENABLER : Hashutil.MUTABLE_WRITE_ENABLER_TAG = ascii "allmydata_mutable_write_enabler_master_and_nodeid_to_write_enabler_v1" := by pin
-theorem tag_PLAINTEXT_SEGMENT : Hashutil.PLAINTEXT_SEGMENT_TAG = ascii "allmydata_plaintext_segment_v1" := by pin
-theorem tag_PLAINTEXT : Hashutil.PLAINTEXT_TAG = ascii "allmydata_plaintext_v1" := by pin
-theorem tag_STORAGE_INDEX : Hashutil.STORAGE_INDEX_TAG = ascii "allmydata_immutable_key_to_storage_index_v1" := by pin
-theorem tag_UEB : Hashutil.UEB_TAG = ascii "allmydata_uri_extension_v1" := by pin
+theorem tag_BACKUPDB_DIRHASH : Hashutil.BACKUPDB_DIRHASH_TAG = ascii "allmydata_backupdb_dirhash_v1" := by c17_pin
+theorem tag_BLOCK : Hashutil.BLOCK_TAG = ascii "allmydata_encoded_subshare_v1" := by c17_pin
+theorem tag_BUCKET_CANCEL : Hashutil.BUCKET_CANCEL_TAG = ascii "allmydata_bucket_cancel_secret_v1" := by c17_pin
+theorem tag_BUCKET_RENEWAL : Hashutil.BUCKET_RENEWAL_TAG = ascii "allmydata_bucket_renewal_secret_v1" := by c17_pin
+theorem tag_CIPHERTEXT_SEGMENT : Hashutil.CIPHERTEXT_SEGMENT_TAG = ascii "allmydata_crypttext_segment_v1" := by c17_pin
+theorem tag_CIPHERTEXT : Hashutil.CIPHERTEXT_TAG = ascii "allmydata_crypttext_v1" := by c17_pin
+theorem tag_CLIENT_CANCEL : Hashutil.CLIENT_CANCEL_TAG = ascii "allmydata_client_cancel_secret_v1" := by c17_pin
+theorem tag_CLIENT_RENEWAL : Hashutil.CLIENT_RENEWAL_TAG = ascii "allmydata_client_renewal_secret_v1" := by c17_pin
+theorem tag_CONVERGENT_ENCRYPTION : Hashutil.CONVERGENT_ENCRYPTION_TAG = ascii "allmydata_immutable_content_to_key_with_added_secret_v1+" := by c17_pin
+theorem tag_DIRNODE_CHILD_SALT : Hashutil.DIRNODE_CHILD_SALT_TAG = ascii "allmydata_dirnode_child_rwcap_to_salt_v1" := by c17_pin
+theorem tag_DIRNODE_CHILD_WRITECAP : Hashutil.DIRNODE_CHILD_WRITECAP_TAG = ascii "allmydata_mutable_writekey_and_salt_to_dirnode_child_capkey_v1" := by c17_pin
+theorem tag_FILE_CANCEL : Hashutil.FILE_CANCEL_TAG = ascii "allmydata_file_cancel_secret_v1" := by c17_pin
+theorem tag_FILE_RENEWAL : Hashutil.FILE_RENEWAL_TAG = ascii "allmydata_file_renewal_secret_v1" := by c17_pin
+theorem tag_MUTABLE_DATAKEY : Hashutil.MUTABLE_DATAKEY_TAG = ascii "allmydata_mutable_readkey_to_datakey_v1" := by c17_pin
+theorem tag_MUTABLE_PUBKEY : Hashutil.MUTABLE_PUBKEY_TAG = ascii "allmydata_mutable_pubkey_to_fingerprint_v1" := by c17_pin
+theorem tag_MUTABLE_READKEY : Hashutil.MUTABLE_READKEY_TAG = ascii "allmydata_mutable_writekey_to_readkey_v1" := by c17_pin
+theorem tag_MUTABLE_STORAGEINDEX : Hashutil.MUTABLE_STORAGEINDEX_TAG = ascii "allmydata_mutable_readkey_to_storage_index_v1" := by c17_pin
+theorem tag_MUTABLE_WRITEKEY : Hashutil.MUTABLE_WRITEKEY_TAG = ascii "allmydata_mutable_privkey_to_writekey_v1" := by c17_pin
+theorem tag_MUTABLE_WRITE_ENABLER_MASTER : Hashutil.MUTABLE_WRITE_ENABLER_MASTER_TAG = ascii "allmydata_mutable_writekey_to_write_enabler_master_v1" := by c17_pin
+theorem tag_MUTABLE_WRITE_ENABLER : Hashutil.MUTABLE_WRITE_ENABLER_TAG = ascii "allmydata_mutable_write_enabler_master_and_nodeid_to_write_enabler_v1" := by c17_pin
+theorem tag_PLAINTEXT_SEGMENT : Hashutil.PLAINTEXT_SEGMENT_TAG = ascii "allmydata_plaintext_segment_v1" := by c17_pin
+theorem tag_PLAINTEXT : Hashutil.PLAINTEXT_TAG = ascii "allmydata_plaintext_v1" := by c17_pin
+theorem tag_STORAGE_INDEX : Hashutil.STORAGE_INDEX_TAG = ascii "allmydata_immutable_key_to_storage_index_v1" := by c17_pin
+theorem tag_UEB : Hashutil.UEB_TAG = ascii "allmydata_uri_extension_v1" := by c17_pin
 
 /-- docs/specifications/lease.rst: the six lease-secret tags -/
 theorem lease_tags_as_documented :
